@@ -658,6 +658,29 @@ func (c *CheckCtx) docsEntryPoints(cases []*docCase, prop string) error {
 		scs = append(scs, sc)
 		c.nontrivial(sc.Note)
 	}
+	// caller-owned []byte documents with CRLF line endings, a byte order mark, tabs: whatever the
+	// library does to bring input into shape, it does to its own copy
+	for i, doc := range []string{"a: 1\r\nb: two\r\nl:\r\n  - x\r\n", "\xef\xbb\xbfa: 1\nb: 2\n", "{\r\n \"a\": 1,\r\n \"b\": [1, 2]\r\n}\r\n", "\xef\xbb\xbf{\"a\":1}"} {
+		api := "yaml"
+		if strings.Contains(doc, "{") {
+			api = "json"
+		}
+		apivs := []string{"yaml"}
+		if api == "json" {
+			apivs = []string{"json", "sjson"}
+		}
+		for _, apiv := range apivs {
+			sc := &Scenario{ID: fmt.Sprintf("cb%d%s", i, apiv), Configs: stdConfigs(), Program: []string{"TestA"}, Tags: []string{"also:C15"}}
+			st := &Step{Op: "match", Name: "TestA", API: apiv, Cfg: "c", Val: bytesVal(doc)}
+			if strings.HasPrefix(doc, "\xef\xbb\xbf{") {
+				st.X = &Expect{Invalid: true} // a BOM is not JSON
+			}
+			sc.Procs = append(sc.Procs, &Proc{Spec: procSpec("default"), Steps: []*Step{{Op: "begin", Name: "TestA"}, st, {Op: "end", Name: "TestA"}}})
+			sc.Note = fmt.Sprintf("caller-owned []byte input %q via %s: the buffer is the caller's afterwards", doc, apiv)
+			scs = append(scs, sc)
+			c.nontrivial(sc.Note)
+		}
+	}
 	return c.runSeq(scs)
 }
 
@@ -1067,8 +1090,13 @@ func checkC14(c *CheckCtx) error {
 			n++
 			sc := &Scenario{ID: fmt.Sprintf("ji%d", n), Configs: stdConfigs(), Program: []string{"TestA"}}
 			v := strVal(bad)
-			if i%2 == 1 {
+			switch i % 4 { // (the mode below cycles with period 3: every form meets every mode)
+			case 1:
 				v = bytesVal(bad)
+			case 2, 3:
+				if strings.TrimSpace(bad) != "" { // an empty RawMessage marshals as null
+					v = &Val{K: "rawmsg", B64: base64.StdEncoding.EncodeToString([]byte(bad))}
+				}
 			}
 			sc.Procs = append(sc.Procs, &Proc{Spec: procSpec([]string{"default", "update", "ci"}[i%3]), Steps: []*Step{{Op: "begin", Name: "TestA"},
 				{Op: "match", Name: "TestA", API: api, Cfg: "c", Val: v, X: &Expect{Invalid: true}},
